@@ -610,10 +610,21 @@ pub fn g_cf(ch: &mut Chooser, opts: &CfOpts) -> CfProg {
             p.features.push("fault:underflow");
         }
         if opts.faults && ch.chance(1, 60) {
-            for _ in 0..1025 {
-                p.b.ins.push(op(asm::PUSH0));
+            if ch.chance(1, 2) {
+                for _ in 0..1025 {
+                    p.b.ins.push(op(asm::PUSH0));
+                }
+                p.features.push("fault:overflow");
+            } else {
+                // exactly full, then one more item through DUPn (or not quite full: no error)
+                p.b.level(0);
+                let n = *ch.pick(&[1024usize, 1024, 1023]);
+                for _ in 0..n {
+                    p.b.ins.push(op(asm::PUSH0));
+                }
+                p.b.ins.push(op(asm::DUP1 + ch.below(16) as u8));
+                p.features.push("fault:overflow-by-dup");
             }
-            p.features.push("fault:overflow");
         }
         p.b.level(0);
         // terminator
